@@ -138,3 +138,14 @@ Proof. intros H M. destruct (quat_rot_quat R0 e0 e1 e2 e3 H) as [[E|E] _]; fold 
 Lemma approximate_fixes_rotation R0 R1 e0 e1 e2 e3 : e0*e0+e1*e1+e2*e2+e3*e3 = 1 ->
   let M := k27_fromQuat ROps R0 (e0,e1,e2,e3) in setFromApproximateMat33 ROps R1 M = M.
 Proof. intros H M. unfold setFromApproximateMat33. apply (rot_quat_rot R0 R1); auto. Qed.
+
+(** ** non-vacuity of the four branch hypotheses: each branch of the code's selection is taken by some unit quaternion *)
+Ltac gsimp := cbv [tr_ guard0 guard1 guard2 m33_e m33_r0 m33_r1 m33_r2 v3_0 v3_1 v3_2 nadd nsub nmul nofZ ROps k27_fromQuat v4_0 v4_1 v4_2 v4_3].
+Example ex_branch0_taken : guard0 (k27_fromQuat ROps I33 (1/2,1/2,1/2,1/2)).
+Proof. gsimp. lra. Qed.
+Example ex_branch1_taken : let M := k27_fromQuat ROps I33 (0,1,0,0) in ~ guard0 M /\ guard1 M.
+Proof. gsimp. lra. Qed.
+Example ex_branch2_taken : let M := k27_fromQuat ROps I33 (0,0,1,0) in ~ guard0 M /\ ~ guard1 M /\ guard2 M.
+Proof. gsimp. lra. Qed.
+Example ex_branch3_taken : let M := k27_fromQuat ROps I33 (0,0,0,1) in ~ guard0 M /\ ~ guard1 M /\ ~ guard2 M.
+Proof. gsimp. lra. Qed.
